@@ -70,8 +70,8 @@ func (d *TCGEventData) Unmarshal(r io.Reader) error {
 	if err := binary.Read(r, binary.LittleEndian, &size); err != nil {
 		return err
 	}
-	chunk := make([]byte, size)
-	if n, err := r.Read(chunk); err != nil || uint32(n) != size {
+	chunk, n, err := readExactly(r, size)
+	if err != nil {
 		return fmt.Errorf("failed to read TCGEventData sized %d (read %d bytes): %w", size, n, err)
 	}
 	if size >= EventSignatureSize {
@@ -127,7 +127,7 @@ func (e *TCGPCClientPCREvent) Unmarshal(r io.Reader) error {
 	if err := littleRead(r, "EventType", &e.EventType); err != nil {
 		return err
 	}
-	if i, err := r.Read(e.SHA1Digest[:]); err != nil || i != 20 {
+	if i, err := io.ReadFull(r, e.SHA1Digest[:]); err != nil {
 		return fmt.Errorf("failed to read SHA1Digest (read %d bytes): %w", i, err)
 	}
 	if err := littleRead(r, "EventData", &e.EventData); err != nil {
@@ -167,14 +167,15 @@ func (e *TCGPCREvent2) Unmarshal(r io.Reader) error {
 	if err := littleRead(r, "PCRIndex", &e.PCRIndex); err != nil {
 		return err
 	}
+	// Running out of input after the first field means the event was cut short.
 	if err := littleRead(r, "EventType", &e.EventType); err != nil {
-		return err
+		return noEOF(err)
 	}
 	if err := littleRead(r, "Digests", &e.Digests); err != nil {
-		return err
+		return noEOF(err)
 	}
 	if err := littleRead(r, "EventData", &e.EventData); err != nil {
-		return err
+		return noEOF(err)
 	}
 	return nil
 }
@@ -215,7 +216,9 @@ func (cel *CryptoAgileLog) Unmarshal(r io.Reader) error {
 	for {
 		evt := &TCGPCREvent2{}
 		if err := littleRead(r, "Event", evt); err != nil {
-			if errors.Is(err, io.EOF) {
+			// A bare EOF only comes from the first field of an event: the log ended at an event
+			// boundary. Anything cut inside an event is io.ErrUnexpectedEOF.
+			if errors.Is(err, io.EOF) && !errors.Is(err, io.ErrUnexpectedEOF) {
 				return nil
 			}
 			return err
